@@ -11,7 +11,7 @@ func c05(c *Ctx) {
 	r := c.R
 	r.Explanation = "Engine D (state/ownership/ordering on go/ssa) for the three kinds of continuity counter (esContext.cc, Muxer.patCC, Muxer.pmtCC). Decided structurally, hence for ALL operation histories: " +
 		"(a) S1-es — in (*Muxer).WriteData every path from ctx.cc.inc() to the next loop iteration or to a return without error passes writePacket(m.bitsWriter, &pkt, …) for the very packet whose Header.ContinuityCounter received the value (def-use through the field store); each conditional edge on which a consumed value escapes is reported with its path. " +
-		"(b) S1-tables — side-effect summaries of generatePAT/generatePMT (which counters are incremented / flags cleared before which return): no effect may precede a failing return of the generator itself, and in every caller (WriteTables) each effect of a successful generator is followed on every path by m.w.Write of the buffer that generator filled, unless the return propagates the generator's own error or the error of m.w.Write. " +
+		"(b) S1-tables — side-effect summaries of generatePAT/generatePMT (which counters are incremented / flags cleared before which return): no effect may precede a failing return of the generator itself, and in every caller (WriteTables) each effect of a successful generator is followed on every path by m.w.Write of the buffer that generator filled, unless the return propagates the generator's own error or the error of m.w.Write, or the effect is explicitly undone: `m.F = saved` counts only when saved is (def-use) the value loaded from the same field F of the same receiver, that load dominates the generator call, and nothing that can change F (store, call taking &m.F, generator with an effect on F) can run in between; every non-constant store to such a field outside construction is one obligation undo[F]. " +
 		"(c) CC-source — every store to PacketHeader.ContinuityCounter on the mux path is uint8(<counter>.inc()) of the counter of the same PID (esContexts key and Header.PID are the same unmodified field of the same parameter; PIDPAT↔patCC; pmtStartPID↔pmtCC). " +
 		"(d) width — every newWrappingCounter feeding a cc field is built with 15, every version field with 31. (e) T4 — wrappingCounter.inc is +1 modulo wrapAt+1, interpreted over all states for 15 and 31. (f) CC-sites — inc on a continuity counter has exactly one use, the header store, executed one-for-one with it. " +
 		"NOT decided: the emitted sequence per PID over concrete histories (needs the emission order and RemoveElementaryStream/AddElementaryStream re-adding a PID, which restarts its counter by design); returns carrying a provably non-nil error are treated as exempt exits in (a) (a failed writePESData/writePacket leaves the consumed value unpaired — the call failed as a whole); feasibility of the failing exits in (b) is not examined (every syntactic error return counts)."
@@ -19,6 +19,7 @@ func c05(c *Ctx) {
 	r.Trusted = []string{"go/types + go/ssa (x/tools v0.29.0): CFG, dominators, def-use", "bytes.Buffer.Bytes returns the buffered bytes; astikit.NewBitsWriter(BitsWriterOptions{Writer: w}) writes to w", "io.Writer.Write on m.w is the only emission of table packets; writePacket(m.bitsWriter, …) the only emission of PES packets"}
 	muxstate.ESPairing(c.P, r)
 	muxstate.TablePairing(c.P, r)
+	muxstate.UndoStores(c.P, r, muxstate.RuleS1Tables, nil)
 	muxstate.CCSource(c.P, r)
 	muxstate.CounterWidths(c.P, r, map[string]int64{"cc": 15, "version": 31}, map[string]int{"cc": 3, "version": 2})
 	tables.WrapCounter(c.P, r)
